@@ -241,10 +241,40 @@ pub fn inject(rng: &mut Rng, dev: &str, b: &mut [u8], img: &Image) -> Option<Str
             if cap <= root_minis {
                 return None;
             }
-            let i = root_minis + rng.usize_below((cap - root_minis).min(6));
-            let off = img.minifat_cell_off(i)?;
-            wr32(b, off, END);
-            Some(format!("MiniFAT cell {i} (beyond the {root_minis} mini sectors of the root stream) = ENDOFCHAIN"))
+            match rng.below(4) {
+                0 => {
+                    let i = root_minis + rng.usize_below((cap - root_minis).min(6));
+                    let off = img.minifat_cell_off(i)?;
+                    wr32(b, off, END);
+                    Some(format!("MiniFAT cell {i} (beyond the {root_minis} mini sectors of the root stream) = ENDOFCHAIN"))
+                }
+                1 => {
+                    // the usual form: the unused rest of the last MiniFAT sector holds zeros
+                    for i in root_minis..cap {
+                        let off = img.minifat_cell_off(i)?;
+                        wr32(b, off, 0);
+                    }
+                    Some(format!("MiniFAT cells {root_minis}..{cap} (beyond the mini sectors of the root stream) zero-filled"))
+                }
+                2 => {
+                    // a surplus cell naming a mini sector that exists (and has its own owner)
+                    let i = root_minis + rng.usize_below((cap - root_minis).min(6));
+                    let off = img.minifat_cell_off(i)?;
+                    let v = if root_minis > 0 { rng.usize_below(root_minis) as u32 } else { 0 };
+                    wr32(b, off, v);
+                    Some(format!("MiniFAT cell {i} (beyond the {root_minis} mini sectors of the root stream) = {v}"))
+                }
+                _ => {
+                    // surplus cells chained to each other
+                    if cap - root_minis < 2 {
+                        return None;
+                    }
+                    let i = root_minis + rng.usize_below((cap - root_minis - 1).min(6));
+                    wr32(b, img.minifat_cell_off(i)?, i as u32 + 1);
+                    wr32(b, img.minifat_cell_off(i + 1)?, END);
+                    Some(format!("MiniFAT cells {i} -> {} -> ENDOFCHAIN beyond the {root_minis} mini sectors of the root stream", i + 1))
+                }
+            }
         }
         _ => None,
     }
